@@ -853,7 +853,10 @@ func (app *BaseApp) getContextForTx(mode runTxMode, txBytes []byte) (ctx sdk.Ctx
 		WithConsensusParams(app.consensusParams)
 
 	if mode == runTxModeSimulate {
-		ctx, _ = ctx.CacheContext()
+		// a simulation must leave no trace: cache-wrap the store and mark the
+		// context so that node-local LRU caches are neither read nor filled
+		cacheCtx, _ := ctx.CacheContext()
+		ctx = cacheCtx.SetPrevCtx(true)
 	}
 
 	return
@@ -1066,6 +1069,11 @@ func (app *BaseApp) runTx(mode runTxMode, txBytes []byte, tx sdk.Tx) (result sdk
 	// Create a new context based off of the existing context with a cache wrapped
 	// multi-store in case message processing fails.
 	runMsgCtx, newMS := app.txContext(ctx, txBytes) // todo edit here!!!
+	if mode == runTxModeSimulate {
+		// run the message on the simulation's cache-wrapped store (never written),
+		// not on a copy of the root store whose writes would persist
+		runMsgCtx = ctx.WithMultiStore(ctx.MultiStore())
+	}
 	result = app.runMsg(runMsgCtx, msgs, mode, signer)
 	result.GasWanted = gasWanted
 
